@@ -124,6 +124,12 @@ def rows_follow_components(x: int, y: int, v0: int, v1: int) -> bool:
         rb = b.get_cell(cx, cy, 0)
         if sorted(rb.keys()) != ["pos", "slope"] or rb["slope"] != v1 + i:
             return hx.end(hx.fail("row of the same cell in another world of the same shape", got=dict(rb)))
+        # a component generated again under the same name (the usual way to refresh it) REPLACES the old values
+        a.add_cell_component("soil", [v1 - k for k in range(n)])
+        r3 = a.get_cell(cx, cy, 0)
+        if sorted(r3.keys()) != ["pos", "soil"] or r3["soil"] != v1 - i:
+            return hx.end(hx.fail("row of a cell after a component was generated again under the same name",
+                                  labels=list(r3.keys()), expected_soil=v1 - i))
     return hx.end(True)
 
 
